@@ -510,6 +510,9 @@ def sweep_cases(tier):
                     continue
                 out.append({'sweep': sk, 'design': d, 'wall': wall,
                             'L': 0.06 if tier == 'quick' else 0.12})
+        # tabulated coolant (film coefficients change along the height; a region is activated with heated coolant)
+        for sk in ('multi', 'multi2', 'r1'):
+            out.append({'sweep': sk, 'design': d, 'wall': 'flow', 'coolant': 'sodium', 'L': 0.06 if tier == 'quick' else 0.12})
         # [Setup] se2geo = True (another corner geometry), walls heated
         for sk in ('r1', 'r2', 'multi'):
             out.append({'sweep': sk, 'design': d, 'wall': 'flow', 'se2': True, 'L': 0.06 if tier == 'quick' else 0.12})
@@ -532,7 +535,9 @@ def run_sweep(c):
     V = r['violations']
     cc = dict(SWEEP_KINDS[c['sweep']], design=c['design'], wall=c['wall'], re='lam',
               fam=['CTD', 'CTD', 'CTD'], power='asym', L=c['L'])
-    scn = c01.build_scn(cc, dz_user=(c['L'] / 2400.0 if c.get('fine') else None))
+    if c.get('coolant'):
+        cc['dT'] = 250.0
+    scn = c01.build_scn(cc, coolant=c.get('coolant'), dz_user=(c['L'] / 2400.0 if c.get('fine') else None))
     scn['types']['A']['duct_material'] = 'ss316'
     if c.get('se2'):
         scn['setup']['se2geo'] = True
@@ -838,7 +843,7 @@ def replay(body):
         c = {k: sc[k] for k in ('core', 'layout', 'gap_model', 'gapfrac', 'max_steps')}
         r = guarded(run_core, c, 600)
     elif 'sweep' in sc:
-        c = {k: sc[k] for k in ('sweep', 'design', 'wall', 'L', 'ftf', 'fine', 'se2') if k in sc}
+        c = {k: sc[k] for k in ('sweep', 'design', 'wall', 'L', 'ftf', 'fine', 'se2', 'coolant') if k in sc}
         r = guarded(run_sweep, c, 600)
     else:
         c = {k: sc[k] for k in ('kind', 'rings', 'k', 't_mm', 'film0', 'tier') if k in sc}
